@@ -119,11 +119,15 @@ func c17NonEmpty(content []byte) int {
 type c17Range struct{ a, b int }
 
 func c17Calc(bin, file string, k int) (size string, list string, err error) {
-	o1, e1 := exec.Command(bin, "-size", strconv.Itoa(k), "-batch", file).Output()
+	a1, a2 := []string{"-size", strconv.Itoa(k), "-batch", file}, []string{"-list", strconv.Itoa(k), "-batch", file}
+	if k%2 == 0 { // both orders of the two options
+		a1, a2 = []string{"-batch", file, "-size", strconv.Itoa(k)}, []string{"-batch", file, "-list", strconv.Itoa(k)}
+	}
+	o1, e1 := exec.Command(bin, a1...).Output()
 	if e1 != nil {
 		return "", "", fmt.Errorf("-size: %v", e1)
 	}
-	o2, e2 := exec.Command(bin, "-list", strconv.Itoa(k), "-batch", file).Output()
+	o2, e2 := exec.Command(bin, a2...).Output()
 	if e2 != nil {
 		return "", "", fmt.Errorf("-list: %v", e2)
 	}
@@ -147,7 +151,15 @@ func c17Line(k int, long bool) string {
 
 // c17Exec runs the real simulator on one range and returns the 1-based ids of the executed lines.
 func c17Exec(bin, file string, r c17Range, conc int) ([]int, error) {
-	cmd := exec.Command(bin, "-module", "batch", "-batch", file, "-lines", fmt.Sprintf("%d-%d", r.a, r.b), "-concurrent", strconv.Itoa(conc))
+	// the option groups in six of their orders (the programs read their options in one left-to-right pass)
+	lines := fmt.Sprintf("%d-%d", r.a, r.b)
+	groups := [][]string{{"-module", "batch"}, {"-batch", file}, {"-lines", lines}, {"-concurrent", strconv.Itoa(conc)}}
+	orders := [][]int{{0, 1, 2, 3}, {2, 1, 0, 3}, {3, 2, 0, 1}, {1, 3, 2, 0}, {2, 3, 1, 0}, {0, 2, 3, 1}}
+	var args []string
+	for _, gi := range orders[(r.a+2*r.b+conc)%len(orders)] {
+		args = append(args, groups[gi]...)
+	}
+	cmd := exec.Command(bin, args...)
 	var out bytes.Buffer
 	cmd.Stdout, cmd.Stderr = &out, &out
 	if err := cmd.Start(); err != nil {
